@@ -243,9 +243,32 @@ def codec_peewee(prog, rep, rule="CODEC"):
         asg = {}
         for n in walk_own(fi.node):
             if isinstance(n, ast.Assign) and len(n.targets) == 1 and isinstance(n.targets[0], ast.Attribute) and isinstance(n.targets[0].value, ast.Name) and n.targets[0].value.id != "event":
-                asg[n.targets[0].attr] = _ev_text(n.value, "event")
+                from .trace import deep as _deep
+
+                asg[n.targets[0].attr] = _ev_text(_deep(n.value, fi), "event")
         for f, want in PW_ENC.items():
             rep.check(asg.get(f) == want, rule, fi.short, f"{f} encoding", want, f"{m} writes {f} as `{asg.get(f)}`", fi.loc(), expected=want, found=asg.get(f))
+        # ... on every path to the save(), and the save() writes all columns
+        from .cfg import cfg_of as _cfg_of
+
+        g_ = _cfg_of(fi)
+        for sv in [c for c in walk_own(fi.node) if isinstance(c, ast.Call) and isinstance(c.func, ast.Attribute) and c.func.attr == "save" and isinstance(c.func.value, ast.Name) and c.func.value.id != "event"]:
+            recv = c_recv = sv.func.value.id
+            st_ = sv
+            from .model import parent as _parent
+
+            while not isinstance(st_, ast.stmt):
+                st_ = _parent(st_)
+            only = next((k.value for k in sv.keywords if k.arg == "only"), None)
+            if only is not None:
+                listed = {norm(x).split(".")[-1] for x in getattr(only, "elts", [])}
+                rep.check(set(PW_ENC) <= listed, rule, fi.short, f"{recv}.save(only=...)", "all event columns saved", f"`{norm(sv)[:70]}` writes only {sorted(listed)}: the other fields of the event given to {m} ({sorted(set(PW_ENC) - listed)}) are not stored, the row keeps its old values", fi.loc(sv))
+            for f in PW_ENC:
+                setters = [g_.node_of(a) for a in walk_own(fi.node) if isinstance(a, ast.Assign) and any(isinstance(t, ast.Attribute) and isinstance(t.value, ast.Name) and t.value.id == recv and t.attr == f for t in a.targets)]
+                if any(isinstance(x, ast.Compare) and any(norm(y) == f"{recv}.{f}" for y in [x.left] + list(x.comparators)) for x in walk_own(fi.node)):
+                    continue  # the field is compared with the new value somewhere: a path may skip the assignment because they are equal
+                r_ = g_.reach_avoiding([g_.entry], avoid=frozenset(setters), include_start=True)
+                rep.check(g_.node_of(st_) not in r_, rule, fi.short, f"{recv}.{f} set before {recv}.save()", "on every path", f"a path reaches `{norm(sv)[:40]}` (line {sv.lineno}) without assigning `{recv}.{f}`: the stored row keeps its old {f} although {m} was given a new event", fi.loc(sv))
     # readers rebuild events through json()
     for m, pat in (("get_events", "EventModel.json"), ("get_event", "EventModel.json")):
         fi = prog.func(f"PeeweeStorage.{m}")
